@@ -1,7 +1,8 @@
 (** C05, tie by translation for the varint scalar codecs.  [PlencGen.GenScalar]
-    is generated from /repo/plenccodec/bool.go, int.go and string.go (BoolCodec,
-    IntCodec[T], UintCodec[T] - also used as FlatIntCodec -, StringCodec,
-    BytesCodec: size, append, Size, Append, Read, Omit) by tools/gotrans on every run of this check, on top of
+    is generated from /repo/plenccodec/bool.go, int.go, float.go and string.go
+    (BoolCodec, IntCodec[T], UintCodec[T] - also used as FlatIntCodec -,
+    Float64Codec, Float32Codec (a float travels as its IEEE bit pattern),
+    StringCodec, BytesCodec: size, append, Size, Append, Read, Omit) by tools/gotrans on every run of this check, on top of
     the translated plenccore ([PlencGen.GenCore]); the value behind each
     unsafe.Pointer travels as a parameter and what Read stores through it is
     handed back; the integer type parameter T becomes the width w.
@@ -102,6 +103,25 @@ Theorem C05code_String_size_law : forall s tag fuel, (10 <= fuel)%nat -> (Z.of_n
   exists b, StringCodec_Append fuel [] s tag = Ok b /\ StringCodec_Size s tag = Z.of_nat (length b).
 Proof. exact code_String_size_law. Qed.
 Print Assumptions C05code_String_size_law.
+
+(** floats (float.go): the IEEE bit pattern, little-endian *)
+Theorem C05gen_Float_Append : forall b data tag fuel,
+  Float64Codec_Append fuel data b tag = Ok (data ++ enc CF64 (VF64 b) tag)
+  /\ Float32Codec_Append fuel data b tag = Ok (data ++ enc CF32 (VF32 b) tag).
+Proof. exact gen_Float_Append. Qed.
+Print Assumptions C05gen_Float_Append.
+Theorem C05gen_Float_Size : forall (b : N) tag, (Z.of_nat (length tag) < 4611686018427387904)%Z ->
+  Float64Codec_Size tt tag = Z.of_N (size CF64 (VF64 b) tag) /\ Float32Codec_Size tt tag = Z.of_N (size CF32 (VF32 b) tag).
+Proof. exact gen_Float_Size. Qed.
+Print Assumptions C05gen_Float_Size.
+Theorem C05gen_Float_Omit : forall b, Float64Codec_Omit b = omit CF64 (VF64 b) /\ Float32Codec_Omit b = omit CF32 (VF32 b).
+Proof. exact gen_Float_Omit. Qed.
+Print Assumptions C05gen_Float_Omit.
+Theorem C05gen_Float_Read : forall data prior wt fuel,
+  Float64Codec_Read fuel data prior wt = match dec CF64 data (Z.to_N wt) (VF64 prior) with Ok (VF64 b, n) => Ok (b, Z.of_N n) | _ => Err end
+  /\ Float32Codec_Read fuel data prior wt = match dec CF32 data (Z.to_N wt) (VF32 prior) with Ok (VF32 b, n) => Ok (b, Z.of_N n) | _ => Err end.
+Proof. exact gen_Float_Read. Qed.
+Print Assumptions C05gen_Float_Read.
 
 (** ** C05 on the code as translated: Size is the length of what Append writes, with any tag *)
 Theorem C05code_Int_size_law : forall w z tag fuel, wbits w -> in_int w z -> (10 <= fuel)%nat ->
